@@ -2,11 +2,18 @@
 
 Proof step (Props/C12.vo) + regenerated process table (translate_proc.py -> coq/Gen/C12/ProcTable.v, obligations
 re-checked by coqc) + experiments on the real compiler through its three entry points (c12_run.py):
-  * every project of a pool ALONE in a fresh process (baseline) vs AFTER other projects in one process,
-  * the same sequence under PYTHONHASHSEED 0 / 1 / 2 / 3 / random,
+  * every project of a pool ALONE in a fresh process (baseline; projects with real files twice: another temporary folder)
+    vs AFTER other projects in one process (incl. the project itself again, and other EDITS of the same project folder),
+  * the same project again with the very same argument objects (envs list, jmc.txt dict, JMCTestPack object),
+  * the pool under PYTHONHASHSEED 0 / 1 / 2 / 3 / random through all three entry points (real multi-file projects on disk),
   * a diff of all module-level / class-level state of the jmc package before and after a run (what a compile WRITES
     must lie inside the model's field universe).
 Results (file map or exception class + text) must be identical.
+
+The pool is measured, not assumed (strengthening round 1): per Header field of the regenerated universe the projects that
+leave it different from its reset value (mutators) and — self-test, in the runner process — the projects whose result changes
+when the reset of that one field is undone (observers); per set-iteration site of the regenerated table how many compiles
+reached it with >= 2 elements; per module-level / class-level container of the package how many projects see a perturbation.
 """
 from __future__ import annotations
 
@@ -244,8 +251,12 @@ def main(tier: str) -> int:
         "harness/translate_proc.py (fail-closed ast translator): Header.__clear, read_cert/get_cert, IsolatedEnvironment.reset, Lexer.__init__, "
         "the three entry points (order of calls), every iteration over a set-typed expression",
         "CPython facts: int hashes (hence iteration order of set[int]) do not depend on PYTHONHASHSEED; dicts iterate in insertion order",
-        "the file system / cwd / OS directory order are part of the input (glob order of `import \"dir/*\"` is not modelled)",
-        "harness/c12.py + c12_run.py (pool of projects, entry-point drivers, byte comparison of results)",
+        "the file system / cwd / OS directory order are part of the input (glob order of `import \"dir/*\"` is not modelled; the wildcard "
+        "projects are compiled in several fresh temporary folders and under every seed, results must agree)",
+        "harness/c12.py + c12_run.py (pool of projects, entry-point drivers, byte comparison of results; the self-tests that undo one "
+        "reset / perturb one module-level container in the runner process only MEASURE the pool, no verdict depends on them)",
+        "translate_proc.py additionally checks that a module constant copied by a reset (VANILLA_CONDITIONS.copy()) is a flat literal that no "
+        "statement of the package mutates or aliases by name",
     ]
     ck.proof(extra_targets=["Run/C12.vo"])
 
@@ -310,8 +321,10 @@ def main(tier: str) -> int:
                 by_ = {p["id"]: p for p in POOL}
                 must = [b for b in eids if b == a or (by_[a].get("dir") and by_[b].get("dir") == by_[a].get("dir"))]
                 sens = [b for b in sensitive if fits(e, b)]
+                if e == "PYJMC":        # same virtual build as TEST (which runs all x all): a sample of the observers is enough
+                    sens = rng.sample(sens, min(12, len(sens)))
                 rest = [b for b in eids if b not in sens and b not in must]
-                bs = list(dict.fromkeys(must + sens + rng.sample(rest, min(6, len(rest)))))
+                bs = list(dict.fromkeys(must + sens + rng.sample(rest, min(4, len(rest)))))
             seq = []
             for b in bs:
                 seq += [a, b]
@@ -425,6 +438,7 @@ def main(tier: str) -> int:
     #     gets its previous object back — exactly what a missing reset or an aliased / un-copied reset value does), the pool is compiled
     #     twice in that process, and the second pass is compared with the baselines: `sensitivity[f]` = projects whose result differs.
     sensitivity = {}
+    jobs1, jobs2 = [], []
     if t:
         sens_fields = list(t["header"]["cleared"])
         order_ = [i for i in ids]
@@ -446,6 +460,39 @@ def main(tier: str) -> int:
             sensitivity[f]["CLI"] = len(diff)
             sensitivity[f]["examples"] = (sensitivity[f]["examples"] + ["CLI:" + d for d in diff])[:4]
 
+    # (6) SELF-TEST, reads of module-level / class-level containers: each container of the package is perturbed in the runner process
+    #     (words used by the pool's projects added, every other entry dropped — what a compile writing through an alias would do) and the
+    #     pool is compiled: `seen_by` = projects whose result changes, i.e. the pool READS that container in an observable way
+    glob_reach = []
+    try:
+        globs = run_py(RUNNER, dict(seq=[], list_globals=True), timeout=120)["globals"]
+    except Exception:  # noqa
+        globs = []
+    words = sorted({w for p_ in POOL for txt in [p_["src"], p_.get("header") or ""] for w in re.findall(r"[A-Za-z_][A-Za-z_0-9.]*", txt)})
+
+    # the per-class tables of the built-in functions (arg_type, defaults, …: ~80 classes x 5) are perturbed together, one run per attribute
+    # name (thorough: `defaults` also class by class); everything else one container per run
+    groups = {}
+    for g in globs:
+        if g["size"] <= 0:
+            continue
+        m = re.match(r"^(jmc\.compile\.(?:command\.builtin_function\.\w+|decorator_parse))\.(\w+)\.(arg_type|defaults|number_type|param_count|_ignore)$", g["path"])
+        key = f"<every built-in function class>.{m.group(3)}" if m else g["path"]
+        gr = groups.setdefault(key, dict(path=key, paths=[], type=g["type"], size=0))
+        gr["paths"].append(g["path"])
+        gr["size"] += g["size"]
+        if m and tier == "thorough" and m.group(3) == "defaults":
+            groups[g["path"]] = dict(path=g["path"], paths=[g["path"]], type=g["type"], size=g["size"])
+
+    def glob_run(job):
+        g, how = job
+        res = run_seq(items("TEST", ids), perturb=dict(paths=g["paths"], how=how, words=words))["results"]
+        return [it["id"] for it, r in zip(items("TEST", ids), res) if not same(base[("TEST", it["id"])], r)]
+    glob_jobs = [(g, how) for g in groups.values() for how in (["both"] if tier == "quick" else ["add", "drop"])]
+    with ThreadPoolExecutor(max_workers=NCPU) as ex:
+        gres = list(ex.map(glob_run, glob_jobs))
+    for (g, how), diff in zip(glob_jobs, gres):
+        glob_reach.append(dict(container=g["path"], type=g["type"], size=g["size"], perturbation=how, seen_by_projects=len(diff), examples=diff[:3]))
     lap("self_test")
     # ---------------------------------------------------------------- verdict
     found = False
@@ -473,10 +520,14 @@ def main(tier: str) -> int:
         key = (lk["entry"], lk["project"])
         if key in unstable:
             return False
+        if any(i == key[1] for _, i in unstable):
+            return False
         if key not in alone_again:
-            alone_again[key] = run_seq(items(key[0], [key[1]]))["results"][0]
-            if not same(lk["alone"], alone_again[key]):
-                unstable[key] = alone_again[key]
+            with ThreadPoolExecutor(max_workers=NCPU) as ex:
+                alone_again[key] = list(ex.map(lambda _: run_seq(items(key[0], [key[1]]))["results"][0], range(4)))
+            for r in alone_again[key]:
+                if not same(lk["alone"], r):
+                    unstable[key] = r
         return key not in unstable
 
     def report_unstable():
@@ -557,8 +608,8 @@ def main(tier: str) -> int:
                    difference=describe_diff(r[0], r[1]))
         fid = "C12-pyjmc-envs-argument-emptied"
         kn = {f["id"]: f for f in known_for(PROP)}
-        if e == "PYJMC" and mutated == ["envs"] and by[i]["envs"] and "#env" in (by[i]["header"] or "") and (fid in kn or fid in PROPOSED_KNOWN):
-            ck.known(fid, (kn.get(fid) or PROPOSED_KNOWN[fid])["what"])
+        if e == "PYJMC" and mutated == ["envs"] and by[i]["envs"] and "#env" in (by[i]["header"] or "") and (fid in kn):
+            ck.known(fid, kn[fid]["what"])
             continue
         found = True
         n_arg_reports += 1
@@ -607,9 +658,12 @@ def main(tier: str) -> int:
         phase_seconds=phase, fresh_process_repeats=len(again_jobs), same_argument_recompiles=n_args,
         rule="evaluation = one comparison of a project's result (file map or exception class+text) against its fresh-process/seed-0 result: "
              "(entry point, history, project) for histories A,B1,A,B2,… and random mixed-entry histories, (entry point, seed, project) for seeds; "
-             "all are distinct tuples; non-trivial = the compared compile ran after at least one other compile or under a non-zero seed",
+             "(entry point, project) for the second fresh process and for the recompile with the same argument objects; "
+             "all are distinct tuples; non-trivial = the compared compile ran after at least one other compile, under a non-zero seed, "
+             "in a second fresh process (other temporary folder) or with re-used argument objects.  The self-tests (one reset undone, one "
+             "module-level container perturbed) are not counted",
         samples=[dict(entry=e, history=[a], project=bs[0]) for e, a, bs, _ in hist_jobs[:3]] + [dict(mixed=[list(x) for x in mixed_jobs[0]])],
-        programs=len(POOL), pool=[dict(id=p["id"], tags=p["tags"]) for p in POOL], processes=len(base_jobs) + len(again_jobs) + len(hist_jobs) + len(mixed_jobs) + len(seed_jobs) + 3,
+        programs=len(POOL), pool=[dict(id=p["id"], tags=p["tags"]) for p in POOL], processes=len(base_jobs) + len(again_jobs) + len(hist_jobs) + len(mixed_jobs) + len(seed_jobs) + 3 + len(arg_entries) + len(jobs1) + len(jobs2) + len(glob_jobs) + 1,
         disagreements_checked=len(leaks) + len(seed_diffs), pairs=n_pairs, seed_comparisons=n_seed, seeds=["0"] + seeds,
         entry_points=ENTRIES, baseline_failures=sorted({f"{e}:{i}:{r['exc']}" for (e, i), r in base.items() if not r["ok"]}),
         fields=[" ".join(f) if isinstance(f, tuple) else f for f in t["fields"]] if t else [],
@@ -626,6 +680,9 @@ def main(tier: str) -> int:
                        for f in t["header"]["cleared"] if f not in t["container_fields"]] if t else [],
         pyenv_missing_reset_seen_by_projects=sensitivity.get("<PyEnv>", {}).get("TEST"),
         fields_where_a_missing_reset_is_invisible_to_the_pool=sorted(f for f, v in sensitivity.items() if not (v.get("TEST") or v.get("CLI"))),
+        module_level_container_read_reach=glob_reach,
+        module_level_containers_whose_change_no_project_sees=sorted({g["container"] for g in glob_reach} -
+                                                                    {g["container"] for g in glob_reach if g["seen_by_projects"]}),
         set_site_reach=site_reach,
         set_sites_not_reached_with_2_elements=[r["site"] for r in site_reach if not r["compiles_with_2_or_more"] and r["max_elements"] >= 0
                                                and not (r["compiles_reached"] and r["max_elements"] < 0)],
